@@ -322,10 +322,10 @@ Proof.
   assert (POST : rel_post p (fl_eval_loop req p rs s) g1).
   { pose proof (loop_refines req p HP rs s g (length (residual p s rs)) R (le_n _)) as L.
     rewrite (residual_clean p s rs CL) in L.
-    destruct R as [A (I & D & RM & EV)].
+    destruct R as [A (I & D & RM & EN & EV)].
     rewrite (blocks_arel _ _ _ A), RM in L. subst g1.
     destruct (fl_blocks (g_allow g) p); [rewrite spec_go_nil in L|]; exact L. }
-  clearbody g1. destruct POST as [A (I & D & RM & EV)].
+  clearbody g1. destruct POST as [A (I & D & RM & EN & EV)].
   set (s1 := fl_eval_loop req p rs s) in *. clearbody s1.
   unfold fl_end_phase, rel, rel_rest.
   assert (HA : arel (S p)
@@ -345,30 +345,38 @@ Proof.
   destruct (s_allow s1) as [[| |]|]; cbn; repeat split; assumption.
 Qed.
 
+Lemma rel_off p s g : rel p s g -> fl_is_off (s_eng s) = fl_is_off (g_eng g).
+Proof. intros [_ (_ & _ & _ & EN & _)]. rewrite EN. reflexivity. Qed.
+
 Lemma guarded_refines req rs p s g : 1 <= p <= 5 -> rel p s g -> clean s ->
   rel (S p) (fl_guarded_phase req rs s p) (fl_spec_guarded req rs g p)
   /\ clean (fl_guarded_phase req rs s p).
 Proof.
   intros HP R CL. unfold fl_guarded_phase, fl_spec_guarded.
+  rewrite <- (rel_off p s g R). destruct (fl_is_off (s_eng s)).
+  { split; [apply rel_mono; exact R | exact CL]. }
   assert (E : is_some (s_intr s) = is_some (g_intr g)). { destruct R as [_ (I & _)]. rewrite I. reflexivity. }
   rewrite <- E. destruct (is_some (s_intr s)).
   - split; [apply rel_mono; exact R | exact CL].
   - apply phase_refines; assumption.
 Qed.
 
-Lemma init_rel : rel 1 fl_init fl_ginit /\ clean fl_init.
+Lemma init_rel eng : rel 1 (fl_init eng) (fl_ginit eng) /\ clean (fl_init eng).
 Proof. repeat split. left. reflexivity. Qed.
 
-Theorem refines_spec req rs : fl_obs (fl_run eng req rs) = fl_gobs (fl_spec_run eng req rs).
+Theorem refines_spec eng req rs : fl_obs (fl_run eng req rs) = fl_gobs (fl_spec_run eng req rs).
 Proof.
-  unfold fl_run, fl_spec_run. cbn [fold_left].
-  destruct init_rel as [R1 C1].
+  unfold fl_run, fl_spec_run, fl_logging. cbn [fold_left].
+  destruct (init_rel eng) as [R1 C1].
   destruct (guarded_refines req rs 1 _ _ ltac:(lia) R1 C1) as [R2 C2].
   destruct (guarded_refines req rs 2 _ _ ltac:(lia) R2 C2) as [R3 C3].
   destruct (guarded_refines req rs 3 _ _ ltac:(lia) R3 C3) as [R4 C4].
   destruct (guarded_refines req rs 4 _ _ ltac:(lia) R4 C4) as [R5 C5].
-  destruct (phase_refines req rs 5 _ _ ltac:(lia) R5 C5) as [[_ (I & D & _ & EV)] _].
-  unfold fl_obs, fl_gobs. rewrite I, D, EV. reflexivity.
+  rewrite <- (rel_off 5 _ _ R5).
+  match goal with |- context [fl_is_off ?e] => destruct (fl_is_off e) end.
+  - destruct R5 as [_ (I & D & _ & _ & EV)]. unfold fl_obs, fl_gobs. rewrite I, D, EV. reflexivity.
+  - destruct (phase_refines req rs 5 _ _ ltac:(lia) R5 C5) as [[_ (I & D & _ & _ & EV)] _].
+    unfold fl_obs, fl_gobs. rewrite I, D, EV. reflexivity.
 Qed.
 
 (* ================================================================================== *)
